@@ -28,7 +28,10 @@ RULE = ("seeded generator of .qua documents (0..6 notes over lanes 1..10, hits o
         "disk, the second generation reads that very file) and of in-memory charts (lists built from item objects or from DataFrames with shuffled columns, non-default "
         "row labels, unsorted rows, fractional and negative times, an extra index column; and the outputs of OsuToQua, "
         "SMToQua, BMSToQua, O2JToQua on small source maps built from objects; every fourth chart case likewise through "
-        "write_file / read_file); each case runs read/write/read/write "
+        "write_file / read_file); in a third of all cases (both routes, documents, native and converted charts) every object "
+        "is written more than once -- write() twice (file route: write() then write_file()), or the four lists' to_yaml() "
+        "first -- and the LAST document is judged against the chart snapshot taken BEFORE the first write, in both "
+        "generations; each case runs read/write/read/write "
         "(two generations); non-trivial = at least one note, timing point or scroll velocity; distinct by hash of the "
         "canonical JSON of the input; a separate unclaimed stream (foreign note keys, float times, missing sections, "
         "non-string Tags) is checked for correspondence only")
@@ -340,6 +343,13 @@ def _gen_conv(rng):
             "tags": [rng.choice(WORDS) for _ in range(rng.choice([0, 2]))]}
 
 
+# a third of the cases write the SAME object more than once; the LAST document is judged against the chart as it was
+# before the first write: "twice" = write, write again (file route: write() then write_file()); "lists" = the four
+# to_yaml() of the lists first, then the write.  Period 12 against the file route (i % 4 == 1): indices 1 and 5 are file
+# cases, 2 and 7 text cases, so both routes get both modes.
+_REWRITE = [None, "twice", "twice", None, None, "lists", None, "lists", None, None, None, None]
+
+
 def generate(rng, tier):
     import yaml
     n = 200 if tier == "quick" else 4000
@@ -349,7 +359,7 @@ def generate(rng, tier):
         flow = rng.choice([False, False, None, True])
         text = yaml.safe_dump(doc, sort_keys=False, allow_unicode=rng.random() < 0.7, default_flow_style=flow)
         cases.append({"kind": "doc", "claim": True, "text": text, "lines": rng.random() < 0.3, "src": tj(doc),
-                      "io": "file" if i % 4 == 1 else "str"})
+                      "io": "file" if i % 4 == 1 else "str", "rewrite": _REWRITE[i % 12]})
     for i in range(n // 6):
         doc = _gen_loose_doc(rng)
         text = yaml.safe_dump(doc, sort_keys=False, allow_unicode=True)
@@ -369,10 +379,10 @@ def generate(rng, tier):
         # an `index` column is only reachable through TimedList.empty() of the unrepaired tree (converter outputs
         # below are claimed whatever they contain); a synthetic one is checked for correspondence only
         cases.append({"kind": "chart", "claim": not rc.get("extra_index"), "origin": "native", "recipe": rc,
-                      "io": "file" if i % 4 == 1 else "str"})
+                      "io": "file" if i % 4 == 1 else "str", "rewrite": _REWRITE[i % 12]})
     for i in range(n // 3):
         cases.append({"kind": "chart", "claim": True, "origin": "conv", "recipe": _gen_conv(rng),
-                      "io": "file" if i % 4 == 1 else "str"})
+                      "io": "file" if i % 4 == 1 else "str", "rewrite": _REWRITE[i % 12]})
     return cases
 
 
@@ -423,12 +433,18 @@ def _same_tree(a, b):
     return a == b
 
 
-def _write(m, out, tag, tmp=None):
+def _write(m, out, tag, tmp=None, rewrite=None):
     """m.write() -> (text, tree); tests the PyYAML hypothesis on the written document.
     With a directory `tmp` the document goes through QuaMap.write_file(path) and is read back from disk (bytes, utf-8)."""
     import yaml
     del _captured[:]
     try:
+        if rewrite == "twice":
+            m.write()
+            out["rewrites"] = out.get("rewrites", 0) + 1
+        elif rewrite == "lists":
+            m.hits.to_yaml(), m.holds.to_yaml(), m.bpms.to_yaml(), m.svs.to_yaml()
+            out["rewrites"] = out.get("rewrites", 0) + 1
         if tmp is None:
             text = m.write()
         else:
@@ -607,24 +623,26 @@ def _execute(case, tmp):
                 raise RuntimeError("PyYAML oracle hypothesis failed on a generated document: safe_load(dump(d)) != d")
             out["yaml_rt"] = 1
         out["r"] = out["w1"] = out["w2"] = None
+        rw = case.get("rewrite")
         m = _read(text, out, "r", case.get("lines", False), tmp)
         if m is not None:
             out["r"] = _snap_chart(m)
-            t1, out["w1"] = _write(m, out, "w1", tmp)
+            t1, out["w1"] = _write(m, out, "w1", tmp, rw)
             if t1 is not None:
                 m2 = _read(t1, out, "r2", False, tmp)
                 if m2 is not None:
-                    _, out["w2"] = _write(m2, out, "w2", tmp)
+                    _, out["w2"] = _write(m2, out, "w2", tmp, rw)
         return out
     m = _build_native(case["recipe"]) if case["origin"] == "native" else _build_conv(case["recipe"])
     out["c"] = _snap_chart(m)
     out["w1"] = out["r1"] = out["w2"] = None
-    t1, out["w1"] = _write(m, out, "w1", tmp)
+    rw = case.get("rewrite")
+    t1, out["w1"] = _write(m, out, "w1", tmp, rw)
     if t1 is not None:
         m1 = _read(t1, out, "r1", False, tmp)
         if m1 is not None:
             out["r1"] = _snap_chart(m1)
-            _, out["w2"] = _write(m1, out, "w2", tmp)
+            _, out["w2"] = _write(m1, out, "w2", tmp, rw)
     return out
 
 
@@ -1133,6 +1151,8 @@ def bucket(case, out):
     k += f"/yaml-oracle-ok={out.get('yaml_rt', 0)}"
     if case.get("io") == "file":
         k += f"/read_file+write_file:{out.get('file_io', 0)}"
+    if case.get("rewrite"):
+        k += f"/same-object-rewritten:{case['rewrite']}x{out.get('rewrites', 0)}"
     return k
 
 
@@ -1176,7 +1196,8 @@ def _shrink_all(case):
 
         def mk(d):
             return {"kind": "doc", "claim": case.get("claim", True), "lines": False, "src": tj(d),
-                    "io": case.get("io", "str"), "text": yaml.safe_dump(d, sort_keys=False, allow_unicode=True)}
+                    "io": case.get("io", "str"), "rewrite": case.get("rewrite"),
+                    "text": yaml.safe_dump(d, sort_keys=False, allow_unicode=True)}
         for k in list(doc):
             if k in ("HitObjects", "TimingPoints", "SliderVelocities"):
                 if isinstance(doc[k], list):
